@@ -125,7 +125,12 @@ func perIterationFresh(c *engine.Ctx, id string, pkgs []string, min int) {
 							// append(other, v...) hands v's elements on, not v
 							return true
 						}
-						for _, a := range y.Args {
+						for ai, a := range y.Args {
+							// an argument that a function of this module only READS (ranges over, indexes,
+							// measures) is not handed on: `if isBeneathAny(path, deleted) {…}` keeps nothing
+							if paramOnlyRead(c, info, y, ai) || callsNewHelper(c, info, y) {
+								continue // (a helper the tables have never seen is part of this loop body, not a recipient)
+							}
 							hand(a)
 						}
 					case *ast.SendStmt:
@@ -349,4 +354,107 @@ func lastWins(c *engine.Ctx, id string, pkgs []string, min int) {
 			})
 		}
 	}
+}
+
+// paramOnlyRead: the callee is a function of the module with a body, and inside it the parameter that receives
+// argument ai is never assigned from, stored, appended, sent, returned or passed on — every use is the operand of a
+// range statement, an index/slice expression or len/cap.
+func paramOnlyRead(c *engine.Ctx, info *types.Info, call *ast.CallExpr, ai int) bool {
+	var id *ast.Ident
+	switch f := ast.Unparen(call.Fun).(type) {
+	case *ast.Ident:
+		id = f
+	case *ast.SelectorExpr:
+		id = f.Sel
+	}
+	if id == nil {
+		return false
+	}
+	fn, _ := info.Uses[id].(*types.Func)
+	target := c.P.Funcs[fn]
+	if target == nil || target.Decl.Type.Params == nil {
+		return false
+	}
+	var param types.Object
+	i := 0
+	for _, f := range target.Decl.Type.Params.List {
+		if _, variadic := f.Type.(*ast.Ellipsis); variadic {
+			return false
+		}
+		for _, n := range f.Names {
+			if i == ai {
+				param = target.Pkg.TypesInfo.Defs[n]
+			}
+			i++
+		}
+		if len(f.Names) == 0 {
+			i++
+		}
+	}
+	if param == nil {
+		return false
+	}
+	tinfo := target.Pkg.TypesInfo
+	parent := map[ast.Node]ast.Node{}
+	var stack []ast.Node
+	ast.Inspect(target.Decl.Body, func(n ast.Node) bool {
+		if n == nil {
+			stack = stack[:len(stack)-1]
+			return true
+		}
+		if len(stack) > 0 {
+			parent[n] = stack[len(stack)-1]
+		}
+		stack = append(stack, n)
+		return true
+	})
+	only := true
+	ast.Inspect(target.Decl.Body, func(n ast.Node) bool {
+		idn, ok := n.(*ast.Ident)
+		if !ok || tinfo.Uses[idn] != param {
+			return true
+		}
+		switch p := parent[idn].(type) {
+		case *ast.RangeStmt:
+			if p.X != ast.Expr(idn) {
+				only = false
+			}
+		case *ast.IndexExpr:
+			if p.X != ast.Expr(idn) {
+				only = false
+			}
+			if as, ok := parent[p].(*ast.AssignStmt); ok {
+				for _, l := range as.Lhs {
+					if l == ast.Expr(p) {
+						only = false // written through
+					}
+				}
+			}
+		case *ast.SliceExpr:
+			only = false
+		case *ast.CallExpr:
+			if !isBuiltin(tinfo, p, "len", "cap") {
+				only = false
+			}
+		default:
+			only = false
+		}
+		return true
+	})
+	return only
+}
+
+func callsNewHelper(c *engine.Ctx, info *types.Info, call *ast.CallExpr) bool {
+	var id *ast.Ident
+	switch f := ast.Unparen(call.Fun).(type) {
+	case *ast.Ident:
+		id = f
+	case *ast.SelectorExpr:
+		id = f.Sel
+	}
+	if id == nil {
+		return false
+	}
+	fn, _ := info.Uses[id].(*types.Func)
+	return engine.IsNewHelper(c.P.Funcs[fn])
 }
